@@ -2,7 +2,7 @@
    /repo (Gen/Presets.v, Gen/TransformConstants.v), and the functions the harness evaluates.
    No proofs here. *)
 From Coq Require Import List NArith ZArith QArith Bool Arith.
-From Outrank Require Import Features.Transform Gen.Presets Gen.TransformConstants.
+From Outrank Require Import Features.Transform Features.Transform3 Gen.Presets Gen.TransformConstants.
 Import ListNotations.
 Local Close Scope Q_scope.
 
@@ -80,3 +80,37 @@ Fixpoint expr_code (e : expr) : list Z :=
 
 Definition table_code (t : list (str * expr)) : list (str * list Z) :=
   map (fun kv => (fst kv, expr_code (snd kv))) t.
+
+(* ---- composed model (Features/Transform3.v) -------------------------------------------------------- *)
+(* get_vals on one cell with the stripped character and the empty value read from the source, float() as parse_py *)
+Definition parse_cell_code (s : str) : pres :=
+  match strip strip_char s with
+  | [] => PVal empty_value false
+  | t => parse_py t
+  end.
+
+Definition pres_eq (a b : pres) : Prop :=
+  match a, b with
+  | PVal p n, PVal q m => Qeq p q /\ n = m
+  | PNan, PNan => True
+  | PInfty n, PInfty m => n = m
+  | PErr, PErr => True
+  | _, _ => False
+  end.
+
+(* what the harness prints *)
+Definition pres_code (p : pres) : Z * Z * Z * bool :=
+  match p with
+  | PVal q n => (0, Qnum q, Zpos (Qden q), n)
+  | PNan => (1, 0, 1, false)
+  | PInfty n => (2, 0, 1, n)
+  | PErr => (3, 0, 1, false)
+  end%Z.
+
+(* per selected transformer: the keep decision of the composed model computed in Q on the raw cells
+   (None = not computable in Q for this column, or the column does not parse) *)
+Definition keepQ_column (preset : str) (cells : list str) : option (list (option bool)) :=
+  match select preset, parse_column OpsQ cells with
+  | Some sel, Some xs => Some (map (fun kv => keepQ_parsed (snd kv) xs) sel)     (* = keepQ (snd kv) cells *)
+  | _, _ => None
+  end.
